@@ -18,6 +18,8 @@ from pane.convert import make_converter, register_converter_handler, ConverterHa
 from pane.converters import Converter
 from pane.errors import ParseInterrupt, ConvertError, WrongTypeError
 
+from pane.types import ValueOrList
+
 from hlib import obligation, crosshair_exc, eqv, cint
 
 
@@ -117,18 +119,21 @@ class Inner{tag}(Base{tag}{ocustom}):
     u: Union[str, int] = ''
     hc: Optional[HC] = None
     mi: Optional[MyInt] = None
+    vl: ValueOrList[int] = field(default_factory=lambda: ValueOrList.from_val(0))
 
 class Outer{tag}(PaneBase{ecustom}):
     inner: Inner{tag}
     w: int = 0
     inners: List[Inner{tag}] = field(default_factory=list)
+    oinner: Optional[Inner{tag}] = None                     # the same class reached through a union ...
+    uinner: Union[str, List[Inner{tag}]] = ''               # ... and through a container inside a union
 '''
 for f in (0, 1):
     for o in (0, 1):
         for i in (0, 1):
             for e in (0, 1):
                 tag = f"{f}{o}{i}{e}"
-                ns = dict(PaneBase=PaneBase, field=field, List=List, Dict=Dict, Optional=Optional, Union=Union, MC=MC, HC=HC, MyInt=MyInt)
+                ns = dict(PaneBase=PaneBase, field=field, List=List, Dict=Dict, Optional=Optional, Union=Union, MC=MC, HC=HC, MyInt=MyInt, ValueOrList=ValueOrList)
                 exec(_SRC.format(tag=tag, icustom=", custom={int: MC(4)}" if i else "",
                                  ocustom=", custom={int: MC(3)}" if o else "", ecustom=", custom={int: MC(5)}" if e else "",
                                  vfield="field(default=0, converter=MC(1))" if f else "0"), ns)
@@ -193,7 +198,8 @@ def expected_inner(bits, call, enclosing, vals, direction):
     w_field = winner(f, call, o, i and not o, enclosing)
     w_other = winner(False, call, o, i and not o, enclosing)
     (v, x, dv, ov, uv) = vals
-    return dict(v=mk(w_field, v), xs=[mk(w_other, x)], d={'k': mk(w_other, dv)}, o=mk(w_other, ov), u=mk(w_other, uv))
+    return dict(v=mk(w_field, v), xs=[mk(w_other, x)], d={'k': mk(w_other, dv)}, o=mk(w_other, ov), u=mk(w_other, uv),
+                vl=(ValueOrList.from_val(mk(w_other, x)) if direction == 'in' else mk(w_other, x)))
 
 
 def check_family(fsel, csel, nested, vals, wv):
@@ -202,13 +208,13 @@ def check_family(fsel, csel, nested, vals, wv):
     custom = custom_of(csel)
     call = csel in (1, 2, 3, 4)
     (v, x, dv, ov, uv) = vals
-    inner_data = {'v': v, 'xs': [x], 'd': {'k': dv}, 'o': ov, 'u': uv}
+    inner_data = {'v': v, 'xs': [x], 'd': {'k': dv}, 'o': ov, 'u': uv, 'vl': x}
     # the handler set is normalised once per call-level form (HANDLERS): a mapping-form custom= makes a new closure per
     # from_data() call, i.e. a converter rebuild per path; the public entry point itself is exercised by body_entry_points
     conv = make_converter(Outer if nested else Inner, HANDLERS[csel])
     try:
         if nested:
-            r = conv.convert({'inner': inner_data, 'w': wv, 'inners': [inner_data]})
+            r = conv.convert({'inner': inner_data, 'w': wv, 'inners': [inner_data], 'oinner': inner_data, 'uinner': [inner_data]})
             got_inner, enclosing = r.inner, bool(e)
         else:
             r = conv.convert(inner_data)
@@ -225,16 +231,16 @@ def check_family(fsel, csel, nested, vals, wv):
         w_outer = 2 if call else (5 if e else 0)         # the outer class's own int field: call-level, else its own custom=
         if not eqv(r.w, mark_in(w_outer, wv)):
             return 1
-        if len(r.inners) != 1:
+        if len(r.inners) != 1 or r.oinner is None or not isinstance(r.uinner, list) or len(r.uinner) != 1:
             return 1
         for k in exp:
-            if not eqv(getattr(r.inners[0], k), exp[k]):
+            if not eqv(getattr(r.inners[0], k), exp[k]) or not eqv(getattr(r.oinner, k), exp[k]) or not eqv(getattr(r.uinner[0], k), exp[k]):
                 return 1
     # other direction: serialise a plainly built instance
     try:
-        plain = Inner.make_unchecked(v=v, xs=[x], d={'k': dv}, o=ov, u=uv)
+        plain = Inner.make_unchecked(v=v, xs=[x], d={'k': dv}, o=ov, u=uv, vl=ValueOrList.from_val(x))
         if nested:
-            d = conv.into_data(Outer.make_unchecked(inner=plain, w=wv, inners=[plain]))
+            d = conv.into_data(Outer.make_unchecked(inner=plain, w=wv, inners=[plain], oinner=plain, uinner=[plain]))
             d_inner = d['inner']
         else:
             d = conv.into_data(plain)
@@ -250,11 +256,13 @@ def check_family(fsel, csel, nested, vals, wv):
     if nested:
         if not eqv(d['w'], mark_out(2 if call else (5 if e else 0), wv)):
             return 2
-        if len(d['inners']) != 1:
+        if len(d['inners']) != 1 or not isinstance(d['oinner'], dict):
             return 2
         for k in exp:
-            if not eqv(d['inners'][0][k], exp[k]) and not (isinstance(exp[k], list) and eqv(list(d['inners'][0][k]), exp[k])):
-                return 2
+            # (d['uinner'], a container of instances inside a union, is the subject of body_union_container_reach)
+            for got in (d['inners'][0], d['oinner']):
+                if not eqv(got[k], exp[k]) and not (isinstance(exp[k], list) and eqv(list(got[k]), exp[k])):
+                    return 2
     any_custom = call or f or o or i or enclosing
     return 0 if any_custom else -1
 
@@ -618,5 +626,49 @@ def body_inherited_twice(shape: int, a: int, b: int, c: int, d: int) -> int:
 for _s in range(3):
     try:
         body_inherited_twice(_s, 1, 2, 3, 4)
+    except Exception:
+        pass
+
+
+# ------------------------------------------------------------------ serialising a container of dataclass instances that is a union member
+
+class UInner(PaneBase):
+    n: int = 0
+
+
+class UOuter(PaneBase, custom={int: MC(5)}):
+    direct: List[UInner] = field(default_factory=list)
+    u: Union[str, List[UInner]] = ''
+    o: Optional[Dict[str, UInner]] = None
+
+
+@obligation(pre="0 <= which <= 1", witnesses=(0,), timeout=120)
+def body_union_container_reach(which: int, i: int) -> int:
+    """the enclosing class's handler converts the ints of dataclass instances held in a container that is a union member, in both directions"""
+    try:
+        if which == 0:
+            r = UOuter.from_data({'direct': [{'n': i}], 'u': [{'n': i}]})
+            if not eqv(r.direct[0].n, ('in', 5, i)) or not eqv(r.u[0].n, ('in', 5, i)):
+                return 1
+            d = UOuter.make_unchecked(direct=[UInner.make_unchecked(n=i)], u=[UInner.make_unchecked(n=i)]).into_data()
+            if not eqv(d['direct'][0]['n'], ('out', 5, i)) or not eqv(d['u'][0]['n'], ('out', 5, i)):
+                return 2
+        else:
+            r = UOuter.from_data({'o': {'k': {'n': i}}})
+            if not eqv(r.o['k'].n, ('in', 5, i)):
+                return 1
+            d = UOuter.make_unchecked(o={'k': UInner.make_unchecked(n=i)}).into_data()
+            if not eqv(d['o']['k']['n'], ('out', 5, i)):
+                return 2
+    except Exception as ex:
+        if crosshair_exc(ex):
+            raise
+        return 10
+    return 0
+
+
+for _w in (0, 1):
+    try:
+        body_union_container_reach(_w, 1)
     except Exception:
         pass
